@@ -283,7 +283,7 @@ def _ents_source(cx, t, e):
     return e
 
 
-@obligation("MSG.append.anchor", ["C05", "C13"], floor=1, kind="value shape",
+@obligation("MSG.append.anchor", ["C05", "C13", "C02", "C09"], floor=1, kind="value shape",
             why="a prev-anchor that is not the predecessor of the first entry makes followers accept a gap or reject forever")
 def append_anchor(cx):
     ts = tmpls(cx, {"MsgAppend"})
